@@ -641,6 +641,7 @@ class derive_job:
     env = dict(RunJob=lambda *a, **k: _Job("RunJob", *a, **k), ValidateDynamicJob=lambda *a, **k: _Job("ValidateDynamicJob", *a, **k),
                append_joblog_record=lambda *a: None)
     may_raise = {common.ConsistencyError: None}
+    result = lambda: ty.Make(lambda n: _Job("job"))
     modifies = ["self.job_counter", "self.jobs"]
     loops = {0: LoopSpec(locals=dict(inp_hashes=ty.MapOf(ty.Str, FileHashRec), dynamic_inputs_ready=ty.Bool),
                          step_post=_dj_iter_post)}
